@@ -154,10 +154,13 @@ fn linearizable(initial: &Model, hist: &[HEvent], now: u64) -> bool {
 fn gen_thread_ops(r: &mut Rng, n: usize, tid: usize, counter: &mut u8) -> Vec<StOp> {
     let mut v = vec![];
     for _ in 0..n {
-        let g = r.below(2) as u8;
+        // groups 0 and 1 exist from the start, group 2 only once some thread saves it
+        let g = [0u8, 0, 1, 1, 2][r.below(5) as usize];
         *counter = counter.wrapping_add(1);
         let val = *counter;
-        let op = match r.below(14) {
+        let op = match r.below(16) {
+            14 => StOp::ListSnapshots { g },
+            15 => StOp::FindMessage { g, id: r.below(3) as u8 },
             0 | 1 => StOp::SaveGroup { g, nostr: g, name: val % 4, epoch: val % 5, state: 0, admins: 1 + (val % 7), last: None, su: 0 },
             2 | 3 => StOp::ReplaceRelays { g, mask: 1 + (val % 15) },
             4 => StOp::Relays { g },
@@ -166,8 +169,10 @@ fn gen_thread_ops(r: &mut Rng, n: usize, tid: usize, counter: &mut u8) -> Vec<St
             7 => StOp::SaveMessage { g, id: r.below(3) as u8, ca: val % 5, pa: val % 5, state: 1, epoch: Some(val % 3), content: val % 6, wrapper: val % 8, tag: 0 },
             8 => StOp::Messages { g, limit: Some(5), offset: None, sort: None },
             9 => StOp::FindGroup { g },
-            10 => StOp::Snapshot { g, name: r.below(2) as u8 },
-            11 => StOp::Rollback { g, name: r.below(2) as u8 },
+            // snapshots only of groups that exist throughout (a snapshot of a missing group is
+            // outside the contract, see C10)
+            10 => StOp::Snapshot { g: g % 2, name: r.below(2) as u8 },
+            11 => StOp::Rollback { g: g % 2, name: r.below(2) as u8 },
             12 => StOp::SaveProcessed { w: r.below(3) as u8, msg: None, pa: 0, epoch: Some(val % 3), g: Some(g), state: val % 6 },
             _ => StOp::FindProcessed { w: r.below(3) as u8 },
         };
@@ -177,14 +182,40 @@ fn gen_thread_ops(r: &mut Rng, n: usize, tid: usize, counter: &mut u8) -> Vec<St
     v
 }
 
-pub fn run(cfg: &RunCfg, _replay: Option<&[Step]>) -> RunOutput {
+pub fn run(cfg: &RunCfg, replay: Option<&[Step]>) -> RunOutput {
+    let dir = fresh_dir();
+    let storage = Arc::new(MdkSqliteStorage::new_unencrypted(dir.join("shared.sqlite")).expect("open"));
+    fn install(f: Box<dyn FnMut()>) {
+        let mut f = f;
+        mdk_sqlite_storage::verif::set_thread_hook(Some(Box::new(move |_p| f())));
+    }
+    fn remove() {
+        mdk_sqlite_storage::verif::set_thread_hook(None);
+    }
+    let out = run_generic(cfg, replay, storage, install, remove);
+    let _ = std::fs::remove_dir_all(&dir);
+    out
+}
+
+/// the same harness on the memory backend, compiled through the shadow manifest whose
+/// `parking_lot` is the scheduling shim
+pub fn run_memory(cfg: &RunCfg, replay: Option<&[Step]>) -> RunOutput {
+    let storage = Arc::new(mdk_memory_storage_shimmed::MdkMemoryStorage::default());
+    fn install(f: Box<dyn FnMut()>) {
+        parking_lot_shim::set_thread_hook(Some(f));
+    }
+    fn remove() {
+        parking_lot_shim::set_thread_hook(None);
+    }
+    run_generic(cfg, replay, storage, install, remove)
+}
+
+fn run_generic<S: mdk_storage_traits::MdkStorageProvider + Send + Sync + 'static>(cfg: &RunCfg, _replay: Option<&[Step]>, storage: Arc<S>, install: fn(Box<dyn FnMut()>), remove: fn()) -> RunOutput {
     let mut out = empty_output(cfg);
     let mut r = Rng::new(cfg.seed).fork(1919);
     let n_threads = [2usize, 2, 3, 3, 4, 6, 8][r.below(7) as usize];
     let total_ops = 12usize;
     let per = (total_ops / n_threads).max(1);
-    let dir = fresh_dir();
-    let storage = Arc::new(MdkSqliteStorage::new_unencrypted(dir.join("shared.sqlite")).expect("open"));
     // initial state: both groups exist
     let mut model = Model::default();
     let now = T0;
@@ -206,9 +237,9 @@ pub fn run(cfg: &RunCfg, _replay: Option<&[Step]>) -> RunOutput {
             seam::set_time(now);
             simhook::install(0xC19 + tid as u64);
             let s2 = sched.clone();
-            mdk_sqlite_storage::verif::set_thread_hook(Some(Box::new(move |_p| {
+            install(Box::new(move || {
                 s2.yield_point(tid);
-            })));
+            }));
             for op in plan {
                 sched.yield_point(tid);
                 let invoke = sched.stamp();
@@ -224,7 +255,7 @@ pub fn run(cfg: &RunCfg, _replay: Option<&[Step]>) -> RunOutput {
                     }
                 }
             }
-            mdk_sqlite_storage::verif::set_thread_hook(None);
+            remove();
             sched.finish(tid);
         }));
     }
@@ -281,7 +312,6 @@ pub fn run(cfg: &RunCfg, _replay: Option<&[Step]>) -> RunOutput {
     *out.probes.entry("scheduling_steps".into()).or_insert(0) += trace.len() as u64;
     *out.probes.entry(format!("threads_{n_threads}")).or_insert(0) += 1;
     drop(storage);
-    let _ = std::fs::remove_dir_all(&dir);
     let _: (BTreeMap<u8, u8>, BTreeSet<u8>) = Default::default();
     out
 }
@@ -415,13 +445,14 @@ pub fn spec() -> CheckSpec {
     CheckSpec {
         id: "C19",
         level: "exploration",
-        rule: "(1) 2-8 real caller threads issue 12 storage operations (save_group, replace/list relays, exporter secrets, save/list messages, processed records, snapshot create / rollback) on ONE MdkSqliteStorage over a 2-group key pool with unique values; a seeded scheduler decides at every lock-acquisition attempt, connection use, transaction step and operation boundary which thread proceeds; the invoke/return history stamped with the scheduler's global sequence numbers must be linearizable against the sequential storage-contract model (Wing-Gong search), nothing may panic, and all threads must finish within 20000 scheduling steps; (2) 2-6 threads race MdkSqliteStorage::new on one fresh path with one (mock) keyring entry, scheduled at every constructor phase and key-generation-lock attempt: every successful opener can write, and afterwards the stored key opens the database and shows every opener's data; non-trivial = a context switch inside an operation / between openers; distinct = schedule (sequence of thread choices)",
+        rule: "(1) 2-8 real caller threads issue 12 storage operations (save_group, replace/list relays, exporter secrets, save/list messages, processed records, snapshot create / rollback) on ONE MdkSqliteStorage - and, in a second variant, on ONE MdkMemoryStorage - over a 2-group key pool with unique values; a seeded scheduler decides at every lock-acquisition attempt, connection use, transaction step and operation boundary which thread proceeds; the invoke/return history stamped with the scheduler's global sequence numbers must be linearizable against the sequential storage-contract model (Wing-Gong search), nothing may panic, and all threads must finish within 20000 scheduling steps; (2) 2-6 threads race MdkSqliteStorage::new on one fresh path with one (mock) keyring entry, scheduled at every constructor phase and key-generation-lock attempt: every successful opener can write, and afterwards the stored key opens the database and shows every opener's data; non-trivial = a context switch inside an operation / between openers; distinct = schedule (sequence of thread choices)",
         variants: vec![
             Variant { name: "sqlite-linearizability", profile: Profile::default(), runs_quick: 400, runs_thorough: 40000, oracle: mk_nop, guarded: false, configure_gen: None, post: None, custom: Some(run) },
+            Variant { name: "memory-linearizability", profile: Profile::default(), runs_quick: 400, runs_thorough: 40000, oracle: mk_nop, guarded: false, configure_gen: None, post: None, custom: Some(run_memory) },
             Variant { name: "sqlite-first-open-race", profile: Profile::default(), runs_quick: 150, runs_thorough: 10000, oracle: mk_nop, guarded: false, configure_gen: None, post: None, custom: Some(run_open_race) },
         ],
-        assumptions: vec!["real OS threads, parked and released one at a time at the intercepted synchronisation points: the choice of who runs is the scheduler's, never the OS's", "the memory backend has no hook in its parking_lot locks; scheduling it inside operations needs a lock shim through a shadow manifest (shuttle), which was not built - it is exercised single-threaded by C09/C10 only (DESIGN.md)", "search budget of the linearizability checker: 2e6 nodes (exhausted => no alarm)"],
-        real: vec!["mdk-sqlite-storage incl. keyring get-or-create and O_EXCL pre-creation", "bundled SQLite", "std::sync::Mutex behind the verif-hooks lock shim"],
+        assumptions: vec!["real OS threads, parked and released one at a time at the intercepted synchronisation points: the choice of who runs is the scheduler's, never the OS's", "the memory backend is compiled unchanged through a shadow manifest whose `parking_lot` is a shim (vendor/parking-lot-shim) that turns every RwLock acquisition attempt into a scheduling point", "search budget of the linearizability checker: 2e6 nodes (exhausted => no alarm)"],
+        real: vec!["mdk-memory-storage (source unchanged, parking_lot replaced by the shim through a shadow manifest)", "mdk-sqlite-storage incl. keyring get-or-create and O_EXCL pre-creation", "bundled SQLite", "std::sync::Mutex behind the verif-hooks lock shim"],
         stubs: vec!["thread scheduling (seeded scheduler over parked real threads)", "OS keyring (keyring_core mock store)", "sequential storage-contract model (oracle)"],
     }
 }
